@@ -114,7 +114,9 @@ func (h *Handler) modifyResponse(r *http.Response) error {
 	case "":
 		log.Debug("No content encoding header found")
 	default:
+		// The body can't be decoded, so it can't be modified: pass it through unchanged.
 		h.log.Warn(unsupportedContentEncoding, slog.String("encoding", r.Header.Get("Content-Encoding")))
+		return nil
 	}
 
 	// Read the encoded body.
